@@ -554,12 +554,46 @@ func c12Dims() []c12Dim {
 			hdr("Mcp-Param-R", "TRUE", "mcp-param"),
 			hdr("Mcp-Param-Absent", "x", "mcp-param"), // a header for a parameter that is not in the body
 		}},
+		// members spelled like "name" / "arguments" in another letter case are other members (decoding is
+		// case-sensitive): the name that is dispatched is the one the Mcp-Name header has to equal
+		{"body-decoy-members", modern, []func(*c12Req) string{
+			func(r *c12Req) string { // a decoy after the real name; the headers describe the real request
+				c12Edit(r, `"name":"t",`, `"name":"t","Name":"wipe",`)
+				return ""
+			},
+			func(r *c12Req) string { // the real name is "wipe", a decoy spells the header's value
+				c12Edit(r, `"name":"t",`, `"name":"wipe","Name":"t",`)
+				return "mcp-name"
+			},
+			func(r *c12Req) string {
+				c12Edit(r, `"name":"t",`, `"NAME":"t","name":"wipe",`)
+				return "mcp-name"
+			},
+			func(r *c12Req) string { // decoy arguments that contradict the headers; the real ones agree
+				c12Edit(r, `,"_meta"`, `,"Arguments":{"p":"other","q":8,"r":false},"_meta"`)
+				return ""
+			},
+			func(r *c12Req) string { // the headers describe the decoy arguments, not the real ones
+				c12Edit(r, `,"_meta"`, `,"Arguments":{"p":"other"},"_meta"`)
+				c12SetHeader(r, "Mcp-Param-P", "other")
+				return "mcp-param"
+			},
+		}},
 		{"meta-version", modern, []func(*c12Req) string{
 			func(r *c12Req) string {
 				r.body = strings.Replace(r.body, `"io.modelcontextprotocol/protocolVersion":"2026-07-28"`, `"io.modelcontextprotocol/protocolVersion":"2025-06-18"`, 1)
 				return "version"
 			},
 		}},
+	}
+}
+
+// c12Edit replaces old by new in the body; if the body has been padded to a size, the padding gives
+// way so that the size stays what the body-size deviation made it.
+func c12Edit(r *c12Req, old, new string) {
+	r.body = strings.Replace(r.body, old, new, 1)
+	if grow := len(new) - len(old); grow > 0 && strings.Contains(r.body, `"pad":"`+strings.Repeat("x", grow)) {
+		r.body = strings.Replace(r.body, `"pad":"`+strings.Repeat("x", grow), `"pad":"`, 1)
 	}
 }
 
@@ -597,6 +631,10 @@ func c12Setup(kind string) (*c12Endpoint, error) {
 		"note": map[string]any{"type": []any{"string", "null"}},
 	}}
 	s.AddTool(&Tool{Name: "t", InputSchema: schema}, func(context.Context, *CallToolRequest) (*CallToolResult, error) {
+		return &CallToolResult{}, nil
+	})
+	// a second tool, without header annotations
+	s.AddTool(&Tool{Name: "wipe", InputSchema: map[string]any{"type": "object"}}, func(context.Context, *CallToolRequest) (*CallToolResult, error) {
 		return &CallToolResult{}, nil
 	})
 	s.AddReceivingMiddleware(func(next MethodHandler) MethodHandler {
